@@ -1431,6 +1431,12 @@ def site_rewrite(ctx, sf, it, rule, anchor, nth, ropts, what):
         raise
     a, b = tok_range(sf, s, e)
     edits = []
+    if rule == "N5" and not re.match(r"@loop (\d+)$", anchor.strip()):
+        # (maintenance aid) report the ordinal of a text-anchored loop, so that the unit can name it by ordinal
+        lps_ = [l_ for l_ in find_loops(sf, it.body_open, it.body_close) if lo <= toks[l_[0]].start < hi]
+        for n_, l_ in enumerate(lps_):
+            if toks[l_[0]].start == s:
+                ctx.fire("N5-ordinal", sf, s, f"{what} :: {anchor!r} nth={nth} is loop {n_ + 1}")
     if rule == "N8":
         # RECV.extend(ARG)  ->  RECV.extend_from_slice(&ARG) / (ARG) if ARG already starts with &
         k = a
